@@ -112,6 +112,10 @@ pub fn build(spec: &TwinSpec) -> Vec<RNode> {
     for item in &spec.items {
         let Item::Bench(b) = item else { continue };
         let args = b.args.as_ref().map(|a| a.names().into_iter().enumerate().map(|(i, n)| (n, i)).collect::<Vec<_>>());
+        // An empty `args` list yields no case: nothing is shown, run or sorted.
+        if args.as_ref().map(|a| a.is_empty()).unwrap_or(false) {
+            continue;
+        }
         if !b.is_generic() {
             let siblings = descend(&mut roots, &b.meta.module_path);
             siblings.push(RNode {
@@ -450,6 +454,11 @@ pub fn sibling_cmp_ref(a: &RNode, b: &RNode, attr: u8) -> Ordering {
                     // Generic instantiations of one benchmark keep declaration order.
                     match (&a.kind, &b.kind) {
                         (RKind::Leaf { uid: ua, generic_pos: Some(pa), .. }, RKind::Leaf { uid: ub, generic_pos: Some(pb), .. }) if ua == ub => pa.cmp(pb),
+                        // Two *different* entries at the very same file:line:col
+                        // (only possible for macro-generated items): the
+                        // statement gives them no relative position; any order
+                        // is accepted (see DESIGN.md section 10).
+                        _ if a.loc.is_some() && b.loc.is_some() => return Ordering::Equal,
                         _ => Ordering::Equal,
                     }
                 } else {
